@@ -17,6 +17,9 @@ use crate::mailbox::{Mailbox, Message};
 use crate::registry::ProcessRegistry;
 use erltf::OwnedTerm;
 use erltf::types::{Atom, ExternalPid, ExternalReference};
+#[cfg(edp_verif)]
+use edp_client::verif::DetHashSet as HashSet;
+#[cfg(not(edp_verif))]
 use std::collections::HashSet;
 use std::future::Future;
 use std::sync::Arc;
@@ -97,6 +100,8 @@ pub async fn spawn_process<P: Process>(
         let exit_reason = loop {
             match mailbox.recv().await {
                 Ok(msg) => {
+                    #[cfg(edp_verif)]
+                    edp_client::verif::yield_point("process.before_handle").await;
                     if let Err(e) = process.handle_message(msg).await {
                         tracing::error!("Process {} error: {}", pid, e);
                         break OwnedTerm::Atom(Atom::new("error"));
@@ -114,6 +119,8 @@ pub async fn spawn_process<P: Process>(
             tracing::error!("Failed to propagate exit signals for {}: {}", pid, e);
         }
 
+        #[cfg(edp_verif)]
+        edp_client::verif::yield_point("exit.before_registry_remove").await;
         registry.remove(&pid).await;
     });
 
@@ -125,8 +132,12 @@ async fn propagate_exit_signals(
     registry: &ProcessRegistry,
     reason: OwnedTerm,
 ) -> Result<()> {
+    #[cfg(edp_verif)]
+    edp_client::verif::yield_point("exit.before_links").await;
     let links = handle.get_links().await;
     for linked_pid in links {
+        #[cfg(edp_verif)]
+        edp_client::verif::yield_point("exit.before_link_send").await;
         if let Some(linked_handle) = registry.get(&linked_pid).await {
             let _ = linked_handle
                 .send(Message::Exit {
@@ -137,8 +148,12 @@ async fn propagate_exit_signals(
         }
     }
 
+    #[cfg(edp_verif)]
+    edp_client::verif::yield_point("exit.before_monitors").await;
     let monitors = handle.get_monitors().await;
     for (monitoring_pid, reference) in monitors {
+        #[cfg(edp_verif)]
+        edp_client::verif::yield_point("exit.before_monitor_send").await;
         if let Some(monitoring_handle) = registry.get(&monitoring_pid).await {
             let _ = monitoring_handle
                 .send(Message::MonitorExit {
